@@ -200,9 +200,10 @@ fn enum_rows(out: &mut Out, rng: &mut Rng, thorough: bool) {
             let via = crate::numeric::next_via();
             let tf = match first_token(c) {
                 Some(t) => catch(std::panic::AssertUnwindSafe(|| (e.via)(c, t, via))),
-                None => Ok(Err(match scpi::parser::tokenizer::Tokenizer::new_params(c).next() {
-                    Some(Err(ec)) => Error::from(ec).get_code() as i64,
-                    _ => -1,
+                None => Ok(Err(match catch(std::panic::AssertUnwindSafe(|| scpi::parser::tokenizer::Tokenizer::new_params(c).next())) {
+                    Ok(Some(Err(ec))) => Error::from(ec).get_code() as i64,
+                    Ok(_) => -1,
+                    Err(_) => 99999,
                 })),
             };
             let (code, got) = match tf {
